@@ -98,8 +98,16 @@ class PROP(PropCheck):
                 src = pre + SETUP + body
                 at = len((pre + SETUP).encode("utf-8")) + len(body[:body.index(c)].encode("utf-8"))
                 out.append(Case(src, meta={"region": [at, at + len(c.encode("utf-8"))], "code": code, "construct": c}))
+        # runtime errors raised inside user modules: the label must be readable from the text the diagnostic names
+        mods = {"m1.ap": 'DISPLAY("é top")\nlimit <- LENGTH(5) + 1\n', "m2.ap": 'EXPORT PROCEDURE bad(x) {\n// é 中\nRETURN x / 0\n}\n',
+                "m3.ap": '// ' + "é" * 40 + '\nEXPORT PROCEDURE idx(l) {\nRETURN l[99]\n}\n', "m4.ap": 'x <- nosuch\n'}
+        for pre in PREAMBLES:
+            pad = pre + "// " + "x" * rng.randint(0, 300) + "\n"
+            for src in ['IMPORT MOD "m1.ap"\n', 'IMPORT MOD "m2.ap"\nDISPLAY(bad(1))\n', 'IMPORT MOD "m3.ap"\nDISPLAY(idx([1]))\n',
+                        'IMPORT MOD "m4.ap"\n', 'IMPORT "bad" FROM MOD "m2.ap"\nIF (TRUE) {\nDISPLAY(bad(2))\n}\n']:
+                out.append(Case(pad + src, mods=dict(mods), meta={"module": True}))
         progs = G.example_programs()
-        for _ in range((500 if tier == "quick" else 20000) * scale):
+        for _ in range((500 if tier == "quick" else 10000) * scale):
             k = rng.random()
             if k < 0.4:
                 s = G.random_tokenish(rng, rng.randint(2, 15))
@@ -112,6 +120,9 @@ class PROP(PropCheck):
         return out
 
     def model_expr(self, case):
+        if case.mods:
+            files = "; ".join("(%s, %s)" % (C.coq_text(k), C.coq_text(v)) for k, v in case.mods.items())
+            return "(run_obs_files %s [%s])" % (C.coq_text(case.src), files)
         return "(run_obs %s)" % C.coq_text(case.src)
 
     def expected(self, case, impl):
@@ -126,6 +137,8 @@ class PROP(PropCheck):
             if "region" in case.meta:
                 return "the failing construct %r raised no runtime error" % case.meta["construct"]
             return None
+        if case.meta.get("module"):
+            return None      # labels refer to the module's text: readability is checked by the harness (BADSPAN)
         n = len(case.src.encode("utf-8"))
         b = boundaries(case.src)
         for (off, ln) in labels_of(impl):
